@@ -10,6 +10,7 @@
 #include <stdbool.h>
 #include <limits.h>
 #include <float.h>
+#include <stdlib.h>
 
 #ifndef PGMV_CBMC
 /* native build of the extracted text (fidelity check): contracts vanish */
@@ -63,7 +64,11 @@ static inline size_t pgmv_f2i_size_t(double x) { __CPROVER_assert(x > -1.0 && x 
 #else
 static inline size_t pgmv_f2i_size_t(double x) { if (x > -1.0 && x < 18446744073709551616.0) return (size_t)x; return pgmv_nondet_size_t(); }
 #endif
+#ifdef PGMV_F2I_STRICT
+static inline int64_t pgmv_f2i_int64_t(double x) { __CPROVER_assert(x > -9223372036854775808.0 && x < 9223372036854775808.0, "float -> int64_t conversion is in range (no undefined behaviour)"); return (int64_t)x; }
+#else
 static inline int64_t pgmv_f2i_int64_t(double x) { if (x > -9223372036854775808.0 && x < 9223372036854775808.0) return (int64_t)x; return pgmv_nondet_int64_t(); }
+#endif
 #else
 static inline size_t pgmv_f2i_size_t(double x) { return (size_t)x; }
 static inline int64_t pgmv_f2i_int64_t(double x) { return (int64_t)x; }
@@ -79,6 +84,8 @@ static inline int64_t pgmv_f2i_int64_t(double x) { return (int64_t)x; }
   static inline void vec_##T##_emplace_back(vec_##T *v, T x) { __CPROVER_assume(v->size < v->cap); v->data[v->size] = x; v->size = v->size + 1; } \
   static inline void vec_##T##_resize(vec_##T *v, size_t n) { __CPROVER_assume(n <= v->cap); v->size = n; } \
   static inline void vec_##T##_reserve(vec_##T *v, size_t n) { (void)v; (void)n; } \
-  static inline void vec_##T##_shrink_to_fit(vec_##T *v) { (void)v; }
+  static inline void vec_##T##_shrink_to_fit(vec_##T *v) { (void)v; } \
+  static inline void vec_##T##_emplace_back_default(vec_##T *v) { T pgmv_zero = {0}; __CPROVER_assume(v->size < v->cap); v->data[v->size] = pgmv_zero; v->size = v->size + 1; } \
+  static inline vec_##T vec_##T##_new(size_t n) { vec_##T v; v.data = (T *)malloc((n ? n : 1) * sizeof(T)); __CPROVER_assume(v.data != 0); v.size = n; v.cap = (n ? n : 1); return v; }
 
 #endif
